@@ -58,6 +58,7 @@ SEEDS_QUICK = [
     ("unit", "kfoo*bar"),
     ("mul", "foo", "foo"),
     ("conv", "foo", "m"),
+    ("conv", "kfoo", "foo"),  # the TARGET string is the edited symbol (w10: string targets memoised per registry object)
     ("keep", "foo"),
     ("keep", "kfoo"),
     ("keepcopy", "foo"),
